@@ -1,0 +1,11 @@
+//go:build verif
+
+package parse
+
+// Hooks for the /verif machinery.  Compiled only with `-tags verif`; they add
+// exported entry points to unexported functions and tables and change nothing.
+
+// VerifRawtext exposes rawtext.
+func VerifRawtext(s string, trimBefore, trimAfter bool) []byte {
+	return rawtext(s, trimBefore, trimAfter)
+}
